@@ -22,6 +22,7 @@ def make_monitors(names):
             out.append(MONITORS[n[0]](*n[1:]))
         else:
             out.append(MONITORS[n]())
+        out[-1]._recipe = n
     return out
 
 
